@@ -192,8 +192,22 @@ func ReplayMain(prop, path string, quiet bool) int {
 		return 2
 	}
 	st := NewStats()
-	env := NewEnv(st, relaxFromEnv(), rf.Scenario.Seed)
-	v := SafeExec(w, rf.Scenario, env)
+	var v *Violation
+	if h := rf.History; h != nil && h.Workers > 0 {
+		// history replay: the same run sequence the worker executed, in a fresh process
+		base := rf.BaseSeed
+		for run := uint64(h.Worker); run <= h.LastRun; run += uint64(h.Workers) {
+			sc := GenScenario(w, base, h.Tier, run)
+			env := NewEnv(st, relaxFromEnv(), sc.Seed)
+			if v = SafeExec(w, sc, env); v != nil {
+				fmt.Printf("history replay: run %d of the sequence %d, %d, ... %d violates\n", run, h.Worker, h.Worker+h.Workers, h.LastRun)
+				break
+			}
+		}
+	} else {
+		env := NewEnv(st, relaxFromEnv(), rf.Scenario.Seed)
+		v = SafeExec(w, rf.Scenario, env)
+	}
 	if v == nil {
 		if !quiet {
 			fmt.Printf("replay %s: scenario passes (no violation)\n", path)
@@ -435,9 +449,34 @@ func CheckMain(prop, tier string) int {
 			code = cmd.ProcessState.ExitCode()
 		}
 		if code != 1 || !strings.Contains(string(outb), "["+mv.Oracle+"]") {
-			fmt.Fprintf(os.Stderr, "replay of %s did not reproduce in a fresh process (exit %d):\n%s\n", path, code, outb)
-			writeEvidence(w, tier, base, total, t0, nViol, map[string]interface{}{"harness_failure": "replay did not reproduce"}, knownNotes, runs)
-			return 2
+			// The scenario alone does not fail in a fresh process. If the worker's run sequence
+			// up to it does, the library keeps state across runs (package-level): that is a real,
+			// replayable finding — the replay file then carries the sequence instead.
+			rf.Scenario, rf.Violation, rf.Readable = orig, v, orig.Readable()
+			rf.History = &RunHistory{Tier: tier, Worker: int(orig.Run % uint64(nw)), Workers: nw, LastRun: orig.Run}
+			hpath := filepath.Join(vdir, "replays", fmt.Sprintf("%s-%d-history-%d.json", prop, base, orig.Run))
+			if err := WriteReplay(hpath, rf); err != nil {
+				fmt.Fprintf(os.Stderr, "write replay: %v\n", err)
+				return 2
+			}
+			hcmd := exec.Command(self, "replay", prop, hpath)
+			hcmd.Env = append(os.Environ(), "SIM_RELAX="+strings.Join(relaxIDs, ","), fmt.Sprintf("VERIF_SEED=%d", base))
+			houtb, _ := hcmd.CombinedOutput()
+			hcode := -1
+			if hcmd.ProcessState != nil {
+				hcode = hcmd.ProcessState.ExitCode()
+			}
+			if hcode != 1 {
+				fmt.Fprintf(os.Stderr, "replay of %s did not reproduce in a fresh process (exit %d), nor did the worker's run sequence (exit %d):\n%s\n%s\n", path, code, hcode, outb, houtb)
+				writeEvidence(w, tier, base, total, t0, nViol, map[string]interface{}{"harness_failure": "replay did not reproduce"}, knownNotes, runs)
+				return 2
+			}
+			fmt.Printf("the scenario alone passes in a fresh process, the worker's run sequence %d, %d, ... %d reproduces it: the library keeps state across runs\n", rf.History.Worker, rf.History.Worker+nw, orig.Run)
+			fmt.Printf("VIOLATION property=%s replay=%s\n", prop, hpath)
+			replayPaths = append(replayPaths, hpath)
+			nViol++
+			exit = 1
+			continue
 		}
 		fmt.Printf("minimised: %d ops -> %d ops (%d candidates tried): %s\n", rf.Original.Ops, countOps(min), tries, mv)
 		for _, l := range min.Readable() {
